@@ -1,7 +1,12 @@
 /* C14 scenario: pipeline logger (standard formatter + foreground/background channel + recording writer),
  * the no-alloc logger and the fixed-buffer line formatter, under the controlled scheduler.
  * Scenario lines:
- *   LOGGER <bg|fg|na> <filter 0..6>      na = the no-alloc logger writing to a memory stream (lines observed at clean-up)
+ *   LOGGER <bg|fg|na|std|stdf> <filter 0..6>      na = the no-alloc logger writing to a memory stream (lines observed at
+ *                            clean-up); std / stdf = aws_logger_init_standard (default formatter, background channel, file
+ *                            writer) writing to a file it opens by name / to a stream handed to it (lines read back after
+ *                            clean-up returned: everything accepted must be in the file by then)
+ *   LEVELSTR <text> <TEXT>  aws_string_to_log_level(<text>) and, on success, aws_log_level_to_string of the result
+ *   NOLOGGER <level>        a log call while no logger is installed (must be a no-op) + aws_logger_get_conditional
  *   PRE <op> ...            main thread, before the producers are launched
  *   PRODUCER <k> <op> ...   k = 1..3, run concurrently
  *   POST <op> ...           main thread, after the producers were joined (before clean up)
@@ -44,6 +49,8 @@ static struct aws_log_formatter formatter;
 static struct aws_log_channel channel;
 static struct aws_log_writer writer;
 static bool closed_flag;
+static char std_path[4200];
+static FILE *std_stream;
 
 /* ---- line analysis (projection): which call, complete?, shape of the line */
 static void describe_line(const uint8_t *p, size_t n) {
@@ -325,7 +332,7 @@ static void scenario(char **lines, int nlines) {
     closed_flag = false;
     memset(payload, 'x', sizeof(payload) - 1);
     payload[sizeof(payload) - 1] = 0;
-    bool bg = true, have_logger = false, na = false, rfc = false;
+    bool bg = true, have_logger = false, na = false, rfc = false, std = false, stdf = false;
     int filter = 6;
     static bool registered;
     if (!registered) {
@@ -341,6 +348,8 @@ static void scenario(char **lines, int nlines) {
             const char *m = strtok_r(NULL, " ", &save);
             bg = strcmp(m, "bg") == 0;
             na = strcmp(m, "na") == 0;
+            stdf = strcmp(m, "stdf") == 0;
+            std = stdf || strcmp(m, "std") == 0;
             filter = atoi(strtok_r(NULL, " ", &save));
             const char *df = strtok_r(NULL, " ", &save);
             rfc = df && strcmp(df, "rfc") == 0;
@@ -358,6 +367,31 @@ static void scenario(char **lines, int nlines) {
             int len = atoi(strtok_r(NULL, " ", &save)), shape = atoi(strtok_r(NULL, " ", &save));
             const char *sl = strtok_r(NULL, " ", &save);
             run_fmt(total, level, len, shape, false, 0, sl ? atoi(sl) : 13);
+        } else if (strcmp(tok, "LEVELSTR") == 0) {
+            const char *txt = strtok_r(NULL, " ", &save);
+            const char *upper = strtok_r(NULL, " ", &save); /* the driver's own upper-casing of <text>, passed through */
+            enum aws_log_level lv = (enum aws_log_level)77;
+            int rc = aws_string_to_log_level(txt ? txt : "", &lv);
+            const char *back = NULL;
+            int rc2 = rc == 0 ? aws_log_level_to_string(lv, &back) : -1;
+            vh_begin("LevelStr");
+            vh_str("text", txt ? txt : "");
+            vh_str("upper", upper ? upper : "");
+            vh_int("rc", rc);
+            vh_int("level", rc == 0 ? (int)lv : -1);
+            vh_int("rc2", rc2);
+            vh_str("back", back ? back : "");
+            vh_end();
+        } else if (strcmp(tok, "NOLOGGER") == 0) {
+            int level = atoi(strtok_r(NULL, " ", &save));
+            aws_logger_set(NULL);
+            size_t before = vh_live_blocks;
+            emit_log(level, 9, 1, 5, 0, 0);
+            vh_begin("NoLogger");
+            vh_int("level", level);
+            vh_int("cond", aws_logger_get_conditional(AWS_LS_COMMON_GENERAL, (enum aws_log_level)level) != NULL);
+            vh_int("leak", vh_live_blocks != before);
+            vh_end();
         } else if (strcmp(tok, "NOALLOC") == 0) {
             int f = atoi(strtok_r(NULL, " ", &save)), level = atoi(strtok_r(NULL, " ", &save));
             int len = atoi(strtok_r(NULL, " ", &save)), shape = atoi(strtok_r(NULL, " ", &save));
@@ -381,6 +415,23 @@ static void scenario(char **lines, int nlines) {
         vh_str("mode", "na");
         vh_int("filter", filter);
         vh_int("main", vs_self());
+        vh_int("rc", 0);
+        vh_end();
+    } else if (std) {
+        snprintf(std_path, sizeof(std_path), "%s.%d.log", vs_out_path, (int)getpid());
+        remove(std_path);
+        if (stdf) {
+            std_stream = fopen(std_path, "w");
+        }
+        struct aws_logger_standard_options opt = {
+            .level = (enum aws_log_level)filter, .filename = stdf ? NULL : std_path, .file = stdf ? std_stream : NULL};
+        int rc = aws_logger_init_standard(&logger, vh_alloc(), &opt);
+        aws_logger_set(&logger);
+        vh_begin("Setup");
+        vh_str("mode", "std");
+        vh_int("filter", filter);
+        vh_int("main", vs_self());
+        vh_int("rc", rc);
         vh_end();
     } else {
         struct aws_log_formatter_standard_options fopt = {.date_format = rfc ? AWS_DATE_FORMAT_RFC822 : AWS_DATE_FORMAT_ISO_8601};
@@ -399,6 +450,7 @@ static void scenario(char **lines, int nlines) {
         vh_str("mode", bg ? "bg" : "fg");
         vh_int("filter", filter);
         vh_int("main", vs_self());
+        vh_int("rc", 0);
         vh_end();
     }
     pre.k = 0;
@@ -434,6 +486,34 @@ static void scenario(char **lines, int nlines) {
         aws_logger_clean_up(&logger);
         fclose(na_stream);
         free(na_mem);
+        closed_flag = true;
+        vh_begin("CleanUpRet");
+        vh_end();
+        return;
+    }
+    if (std) {
+        /* the logger owns formatter, channel and writer: one call flushes, joins the background thread and closes a
+         * file it opened itself; what is in the file now is everything that will ever be there */
+        aws_logger_clean_up(&logger);
+        if (stdf) {
+            fclose(std_stream);
+        }
+        FILE *f = fopen(std_path, "r");
+        char *ln = NULL;
+        size_t cap = 0;
+        ssize_t got;
+        while (f && (got = getline(&ln, &cap, f)) >= 0) {
+            vh_begin("Write");
+            vh_int("on", -1);
+            vh_int("afterclose", 0);
+            describe_line((uint8_t *)ln, (size_t)got);
+            vh_end();
+        }
+        free(ln);
+        if (f) {
+            fclose(f);
+        }
+        remove(std_path);
         closed_flag = true;
         vh_begin("CleanUpRet");
         vh_end();
